@@ -100,10 +100,12 @@ def drive_shard(shard_id, items, extra):
     events, meta = [], {}
     tid = shard_id * 10_000_000
     try:
-        for script in items:
-            for impl in ("rs", "py"):
+        for si, script in enumerate(items):
+            for k, impl in enumerate(("rs", "py", "rsk")):
+                if impl == "rsk" and si % 3 != 0:
+                    continue          # every third script also runs on a Rust runtime built with keyboard interrupts disabled
                 tid += 1
-                m = mh.RustMachine(vh) if impl == "rs" else mh.PyMachine()
+                m = mh.RustMachine(vh) if impl == "rs" else (mh.RustMachine(vh, kb_irq=False) if impl == "rsk" else mh.PyMachine())
                 meta[tid] = {"impl": impl, "script": script}
                 ev = mh.run_script(m, script, tid)
                 events.extend(ev)
@@ -207,7 +209,7 @@ def replay(path: str) -> int:
     rec = json.loads(Path(path).read_text())["replay"]
     vh = Vh()
     try:
-        m = mh.RustMachine(vh) if rec["impl"] == "rs" else mh.PyMachine()
+        m = mh.RustMachine(vh) if rec["impl"] == "rs" else (mh.RustMachine(vh, kb_irq=False) if rec["impl"] == "rsk" else mh.PyMachine())
         ev = mh.run_script(m, rec["script"], 1)
     finally:
         vh.close()
